@@ -158,7 +158,7 @@ PARAM_VARIANTS = [
     {"newton_tol": 1e-5}, {"newton_tol": 1e-11}, {"theta_max": 0.5, "theta_ref": 0.25}, {"theta_max": 0.99, "theta_ref": 0.9},
     {"K_P": 0.0, "K_I": 0.0}, {"K_P": 1.0, "K_I": 0.1}, {"lamb_inc": 4.0, "lamb_red": 0.25}, {"lamb_min": 0.5}, {"lamb_init": 1e-3}, {"lamb_init": 100.0},
     {"validate_input": False}, {"active_set_method": _tau_rule},
-    {"lamb_inc": 1.25}, {"lamb_red": 1.0}, {"local_infeas_tol": 1e-12}, {"opt_tol": 1e-10, "active_tol": 1e-8},
+    {"lamb_inc": 1.25}, {"lamb_red": 1.0}, {"local_infeas_tol": 1e-12}, {"opt_tol": 1e-10, "active_tol": 1e-8}, {"active_tol": 0.0},
 ]
 
 
